@@ -462,10 +462,13 @@ func (w *world) refAuthorised(cmdJSON []byte, claimedFrom, sender common.Address
 	for _, si := range cmd.SInfos {
 		// the text does not say what an over-long key or signature field means; the node reads the first 32 and
 		// 64 bytes, and so does the reference (what matters is that a validator counts once however it is written)
-		if len(si.PubKey) < ed25519.PublicKeySize || len(si.Signature) < ed25519.SignatureSize {
-			continue
-		}
-		si.PubKey, si.Signature = si.PubKey[:ed25519.PublicKeySize], si.Signature[:ed25519.SignatureSize]
+		// (likewise a field that is too short is read as if padded with zeros: a signature whose last byte is 0 -
+		// one in sixteen - survives the loss of that byte; it still is that validator's signature over the request)
+		var pkb [ed25519.PublicKeySize]byte
+		var sgb [ed25519.SignatureSize]byte
+		copy(pkb[:], si.PubKey)
+		copy(sgb[:], si.Signature)
+		si.PubKey, si.Signature = pkb[:], sgb[:]
 		if seen[string(si.PubKey)] {
 			continue
 		}
